@@ -117,6 +117,9 @@ func cmdFn(args []string) {
 		os.Exit(2)
 	}
 	fmt.Printf("loaded in %.1fs; %d contract files\n", time.Since(t0).Seconds(), len(p.SpecFilesRead))
+	if os.Getenv("GOVC_DBG") != "" {
+		dbgFuncs(p, os.Getenv("GOVC_DBG"))
+	}
 	want := map[string]bool{}
 	for _, n := range strings.Split(*fn, ",") {
 		if n != "" {
